@@ -108,6 +108,8 @@ def worker(job):
             )
             @given(strat)
             def run(case):
+                if res["harness_error"] is not None:
+                    return  # do not let Hypothesis shrink a harness error
                 if state["failed"]:
                     res["post_failure_calls"] += 1
                     if res["post_failure_calls"] > int(os.environ.get("VERIF_SHRINK_CALLS", "150" if tier == "quick" else "1500")):
